@@ -3,8 +3,11 @@
   characterisation of the loop of `notify_changed_state_variables`.
 -/
 import Upnp.Lemmas.C10Names
+import Upnp.Lemmas.C08Valid
+set_option linter.unusedSectionVars false
 namespace Upnp.C10
 open Upnp PyDict Upnp.C09
+variable [FloatOracle]
 
 /-! ### the `changes` dict -/
 
@@ -70,10 +73,26 @@ theorem applyChanges_named (names : List Str) (tick : Nat) (ch : List (Str × St
     | none => exact ih _ _
     | some n => simp only [Option.map_some, applyNamed]; exact ih _ _
 
+/-- every coercer of the generated table answers any text with a value or ValueError (C08's totality result):
+    no other exception can leave `upnp_value = text` -/
+theorem convert_total (v : Var) (text : Str) :
+    (∃ x, convert v text = .ok x) ∨ convert v text = .error .valueError :=
+  Upnp.C08.coercePython_total FloatOracle.ops table 6 (by decide) (Nat.le_refl _) v.row text
+
+theorem raisesVar_none (v : Var) (text : Str) : raisesVar v text = none := by
+  unfold raisesVar
+  rcases convert_total v text with ⟨x, h⟩ | h <;> simp [h]
+
 theorem setUpnpValue_decl (v : Var) (text : Str) (tick : Nat) : (setUpnpValue v text tick).1.decl = v.decl := by
   unfold setUpnpValue; split
-  · rfl
   · split <;> rfl
+  · split <;> rfl
+
+theorem setUpnpValue_row (v : Var) (text : Str) (tick : Nat) :
+    (setUpnpValue v text tick).1.row = v.row ∧ (setUpnpValue v text tick).1.sc = v.sc := by
+  unfold setUpnpValue; split
+  · split <;> exact ⟨rfl, rfl⟩
+  · split <;> exact ⟨rfl, rfl⟩
 
 theorem updateVar_fst (vars : List Var) (n text : Str) (tick : Nat) (hnd : (vars.map (·.decl.name)).Nodup) :
     (updateVar vars n text tick).1 =
